@@ -28,7 +28,7 @@ from concurrent.futures import ThreadPoolExecutor
 from lib import core
 
 DRIVER = "drv_rng"
-LEAN_TARGETS = ["OmplModel.Props.C20", DRIVER]
+LEAN_TARGETS = ["OmplModel.Props.C20", DRIVER, "drv_rngplan"]
 U64 = (1 << 64) - 1
 LCG_M = 2147483563
 
@@ -638,6 +638,301 @@ def gnat_check(ck, plain, quick):
     ck.log("GNAT tie order: %d lattice cases in two heap layouts, %d new failing" % (len(jobs), bad))
     return bad
 
+# ---------------------------------------------------------------------------------- RRT in lock-step with the model
+# The real geometric::RRT (linear nearest-neighbour structure) on explicitly given RealVector problems against
+# OmplModel.Model.RngPlan: the planner written as an oracle computation on top of the model of RNGSeedGenerator /
+# ompl::RNG.  Compared: status, approximate flag, #evaluations, #polls, hash of the whole query transcript, solution
+# difference, path, tree (states and parent indices in insertion order) and the local seeds of the planner's and the
+# sampler's generators — for every section of a solve/clear history.  Nothing is replayed: the model computes every
+# draw, every sample, every nearest neighbour and every validity query itself.
+RRT_DRIVER = "drv_rngplan"
+# process environment of the targeted search after a model/implementation disagreement: everything a program can read
+# without asking (home, user, locale, time zone, terminal) differs from the first two processes
+RRT_OTHER_ENV = {"HOME": "/nonexistent/c20", "USER": "c20-other", "LOGNAME": "c20-other", "LANG": "C", "LC_ALL": "C",
+                 "TZ": "Pacific/Kiritimati", "TERM": "dumb", "HOSTNAME": "c20-other-host", "TMPDIR": "/tmp/eng_c20_other"}
+RRT_B2 = [((0.30, 0.00), (0.36, 0.62)), ((0.30, 0.74), (0.36, 1.00)), ((0.55, 0.35), (0.75, 0.65)), ((0.80, 0.70), (0.86, 0.86))]
+
+
+def rrt_line(j, trace=0):
+    vec = lambda v: ",".join(fb(x) for x in v)
+    return ("run dim=%d lo=%s hi=%s boxes=%s starts=%s goals=%s thr=%s res=%s range=%s bias=%s is=%d seed=%d budget=%d "
+            "hist=%s ptc=%s trace=%d" % (
+                j["dim"], vec(j["lo"]), vec(j["hi"]), ";".join(vec(list(b[0]) + list(b[1])) for b in j["boxes"]) or "-",
+                ";".join(vec(s) for s in j["starts"]), ";".join(vec(g) for g in j["goals"]), fb(j["thr"]), fb(j["res"]),
+                fb(j["range"]), fb(j["bias"]), j["is"], j["seed"], j["budget"], j["hist"], j["ptc"], trace))
+
+
+def gen_rrt_job(r, quick=True):
+    """one random RRT problem; returns (job, classes) where classes names the input classes it falls into"""
+    cls = []
+    dim = r.choice([1, 2, 2, 2, 3, 3, 4, 5, 6, 8])
+    kind = r.below(4)
+    if kind == 0:
+        lo, hi = [0.0] * dim, [1.0] * dim
+        cls.append("bounds:unit")
+    elif kind == 1:
+        lo = [r.uniform(-5, 5) for _ in range(dim)]
+        hi = [l + r.choice([1.0, 0.25, 7.5, r.uniform(0.1, 10)]) for l in lo]
+        cls.append("bounds:shifted")
+    elif kind == 2:
+        sc = r.choice([1e-6, 1e-3, 1e3, 1e9])
+        lo = [-sc * r.uniform(0.5, 1) for _ in range(dim)]
+        hi = [sc * r.uniform(0.5, 1) for _ in range(dim)]
+        cls.append("bounds:scaled-%g" % sc)
+    else:
+        lo = [r.choice([0.0, -1.0, 100.0]) for _ in range(dim)]
+        hi = [l + r.choice([1.0, 1e-3, 50.0]) for l in lo]
+        cls.append("bounds:anisotropic")
+    ext = [h - l for l, h in zip(lo, hi)]
+    pt = lambda: [l + e * r.unit() for l, e in zip(lo, ext)]
+    at = lambda f: [l + e * f for l, e in zip(lo, ext)]
+    boxes = []
+    bk = r.below(5)
+    if bk == 0:
+        cls.append("boxes:none")
+    elif bk == 1 and dim >= 2:
+        for b in RRT_B2:
+            blo = [lo[i] + ext[i] * (b[0][i] if i < 2 else 0.0) for i in range(dim)]
+            bhi = [lo[i] + ext[i] * (b[1][i] if i < 2 else r.choice([0.6, 0.8, 1.0])) for i in range(dim)]
+            boxes.append((blo, bhi))
+        cls.append("boxes:wall-with-gap")
+    else:
+        for _ in range(1 + r.below(5)):
+            c = pt()
+            half = [e * r.choice([0.02, 0.08, 0.15, 0.3, 0.0]) for e in ext]
+            boxes.append(([a - h for a, h in zip(c, half)], [a + h for a, h in zip(c, half)]))
+        cls.append("boxes:random")
+        if any(all(h == l for l, h in zip(*b)) for b in boxes):
+            cls.append("boxes:degenerate-point")
+    starts = [at(0.1)]
+    sk = r.below(8)
+    if sk == 1:
+        starts = [pt()]
+    elif sk == 2:       # two equal starts (exact distance ties in every nearest query until the tree grows)
+        starts = [at(0.1), at(0.1)]
+        cls.append("starts:duplicate")
+    elif sk == 3:       # out of bounds first, then a good one; or out of bounds only
+        bad = at(0.5)
+        bad[r.below(dim)] = hi[0] + ext[0] if r.below(2) else lo[0] - ext[0]
+        bad[0] = hi[0] + ext[0]
+        starts = [bad] + ([at(0.15)] if r.below(3) else [])
+        cls.append("starts:out-of-bounds" + ("+valid" if len(starts) > 1 else "-only"))
+    elif sk == 4 and boxes:  # a start inside an obstacle (one isValid query, skipped)
+        b = boxes[r.below(len(boxes))]
+        starts = [[(a + c) / 2 for a, c in zip(*b)], at(0.1)][:1 + r.below(2)]
+        cls.append("starts:in-obstacle")
+    elif sk == 5:       # on the boundary, and within epsilon outside it
+        s1 = at(0.2)
+        s1[0] = hi[0]
+        s2 = at(0.3)
+        s2[0] = lo[0] - abs(lo[0]) * 1e-17
+        starts = [s1, s2, at(0.1)]
+        cls.append("starts:on-boundary")
+    elif sk == 6:       # symmetric around the goal direction
+        starts = [at(0.1), at(0.12), at(0.08)]
+        cls.append("starts:three")
+    goals = [at(0.9)]
+    gk = r.below(8)
+    if gk == 1:
+        goals = [pt()]
+    elif gk == 2:
+        goals = [at(0.9), at(0.85), pt()]
+        cls.append("goals:three(GoalStates)")
+    elif gk == 3:
+        goals = [list(starts[-1])]
+        cls.append("goals:equal-to-start")
+    elif gk == 4 and boxes:
+        b = boxes[0]
+        goals = [[(a + c) / 2 for a, c in zip(*b)]]
+        cls.append("goals:in-obstacle")
+    elif gk == 5:
+        goals = [at(0.9), at(0.9)]
+        cls.append("goals:duplicate(GoalStates)")
+    diag = sum(e * e for e in ext) ** 0.5
+    thr = r.choice([0.02, 0.05, 0.05, 0.0, 2.220446049250313e-16, 0.3, 5.0, -1.0]) * (diag if r.below(2) else 1.0)
+    res = r.choice([0.02, 0.02, 0.013, 0.5, 0.003, 0.99, 0.1])
+    rng_ = r.choice([0.0, 0.0, 0.07, 1e-3, 10.0, 1e-17, 0.2]) * (diag if r.below(2) else 1.0)
+    bias = r.choice([0.05, 0.05, 0.2, 0.0, 1.0, 0.5, 2.0, -0.5])
+    budgets = [0, 1, 2, 5, 17, 50, 120, 300, 700, 1500] if quick else [0, 1, 5, 50, 300, 700, 1500, 3000, 6000]
+    j = {"dim": dim, "lo": lo, "hi": hi, "boxes": boxes, "starts": starts, "goals": goals, "thr": thr, "res": res,
+         "range": rng_, "bias": bias, "is": 1 if r.below(3) == 0 else 0,
+         "seed": 0 if r.below(25) == 0 else rand_seed(r), "budget": r.choice(budgets),
+         "hist": r.choice(["s", "s", "s", "ss", "scs", "sss", "scss", "sscs", "scsc"]),
+         "ptc": r.choice(["evals", "evals", "iter"])}
+    if j["res"] <= 0.003 and j["budget"] > 700:
+        j["budget"] = 700           # hundreds of interpolated states per motion: keep the transcript short
+    cls += ["dim:%d" % dim, "hist:" + j["hist"], "ptc:" + j["ptc"], "is:%d" % j["is"],
+            "bias:%g" % bias, "res:%g" % res, "range:" + ("auto" if rng_ < 2.220446049250313e-16 else "set"),
+            "thr:" + ("never" if thr <= 0 else "eps" if thr < 1e-10 else "huge" if thr >= diag else "normal")]
+    if j["seed"] == 0:
+        cls.append("seed:zero")
+    return j, cls
+
+
+def rrt_fields(line):
+    return [dict(t.split("=", 1) for t in sec.split() if "=" in t) for sec in line.split(" || ")]
+
+
+def rrt_oracle(j, secs):
+    """what the property and the planner's contract say about one result line, whatever the model says"""
+    for i, s in enumerate(secs):
+        if not s:
+            continue
+        ls = s.get("lseed", "").split(",")
+        for x in ls:
+            if x != "-" and not (1 <= int(x) <= 1000000000):
+                return "local seed %s outside [1, 1e9]" % x
+        if i > 0 and secs[0] and ls[0] != secs[0]["lseed"].split(",")[0]:
+            return "the planner's own generator changed its local seed between two solves"
+        if s.get("status") == "6" and s.get("approx") != "0":
+            return "EXACT_SOLUTION reported together with an approximate path"
+        if s.get("status") == "5" and s.get("approx") != "1":
+            return "APPROXIMATE_SOLUTION reported with an exact path"
+        if s.get("status") in ("1", "4") and s.get("path") != "none":
+            return "a path although no solution was reported"
+    return None
+
+
+def rrt_run(ck, binary, j, clock, trace=0, variant=0, model=False):
+    script = ["rrtl clock=%d" % clock, rrt_line(j, trace)]
+    if model:
+        out, rc, err = ck.run_bin(ck.driver(RRT_DRIVER), script, timeout=300)
+    else:
+        out, rc, err = ck.run_bin(binary, script, timeout=300, env=variant_env(variant))
+    return script, (out or []), rc, (err or "")
+
+
+def rrt_lockstep(ck, hbin, plain, quick):
+    """returns the number of failing cases"""
+    jobs = []
+    d = os.path.join(core.VERIF, "corpus", "C20")
+    for f in sorted(os.listdir(d)) if os.path.isdir(d) else []:
+        if f.endswith(".rrt"):
+            ls = [l.rstrip("\n") for l in open(os.path.join(d, f)) if l.startswith("run ")]
+            for l in ls:
+                jobs.append((None, ["corpus"], l))
+    n = 260 if quick else 1500
+    for i in range(n):
+        j, cls = gen_rrt_job(ck.rng.fork("rrt%d" % i), quick)
+        jobs.append((j, cls, rrt_line(j)))
+
+    # ill-formed lines: both sides must answer bad-op (never a default)
+    rm = ck.rng.fork("rrt-malformed")
+    for k in range(16 if quick else 60):
+        j, _cls = gen_rrt_job(rm.fork("m%d" % k), True)
+        j["budget"] = min(j["budget"], 50)
+        line = rrt_line(j)
+        toks = line.split()
+        how = k % 16
+        if how == 0:
+            toks = [t for t in toks if not t.startswith("thr=")]
+        elif how == 1:
+            toks.append("bias=" + fb(0.5))
+        elif how == 2:
+            toks = [("lo=" + t[3:] + "," + fb(0.0)) if t.startswith("lo=") else t for t in toks]
+        elif how == 3:
+            toks = [("hi=" + ",".join(l for l in next(u for u in toks if u.startswith("lo="))[3:].split(","))) if t.startswith("hi=") else t for t in toks]
+        elif how == 4:
+            toks = [("res=" + fb(rm.choice([0.0, 1.0, -0.5, 1.5]))) if t.startswith("res=") else t for t in toks]
+        elif how == 5:
+            toks = [("hist=" + rm.choice(["", "c", "cs", "sx", "S"])) if t.startswith("hist=") else t for t in toks]
+        elif how == 6:
+            toks = [("ptc=" + rm.choice(["time", "", "evals,iter"])) if t.startswith("ptc=") else t for t in toks]
+        elif how == 7:
+            toks = [("dim=" + rm.choice(["0", "9", "-1", "2.0", ""])) if t.startswith("dim=") else t for t in toks]
+        elif how == 8:
+            toks = [("seed=" + rm.choice([str(1 << 64), "-1", "0x10", ""])) if t.startswith("seed=") else t for t in toks]
+        elif how == 9:
+            toks = [("budget=" + rm.choice(["1000001", "-3", "1e3"])) if t.startswith("budget=") else t for t in toks]
+        elif how == 10:
+            toks = [("starts=" + rm.choice(["-", "", ";"])) if t.startswith("starts=") else t for t in toks]
+        elif how == 11:
+            toks = [("goals=" + t[6:] + ";") if t.startswith("goals=") else t for t in toks]
+        elif how == 12:
+            toks = [("boxes=" + fb(0.1)) if t.startswith("boxes=") else t for t in toks]
+        elif how == 13:
+            toks[0] = "solve"
+        elif how == 14:
+            toks = [("is=" + rm.choice(["2", "true", ""])) if t.startswith("is=") else t for t in toks]
+        else:
+            toks = [("thr=" + t[4:] + "=1") if t.startswith("thr=") else t for t in toks]
+        jobs.append((None, ["malformed-line"], " ".join(toks)))
+
+    def do(ij):
+        i, (j, cls, line) = ij
+        clock = model_clock(ck.rng.fork("rrtclock%d" % i), set())
+        script = ["rrtl clock=%d" % clock, line]
+        # the sanitized build for every 4th case, the plain one otherwise; two processes with different fresh-state
+        # fillers, heap fill bytes and layouts (the model has none of these inputs)
+        b = hbin if i % 4 == 0 else plain
+        a_out = ck.run_bin(b, script, timeout=300, env=variant_env(0) if b is plain else None)
+        b_out = ck.run_bin(plain, script, timeout=300, env=variant_env(1))
+        m_out = ck.run_bin(ck.driver(RRT_DRIVER), script, timeout=300)
+        return i, j, cls, script, a_out, b_out, m_out
+    with ThreadPoolExecutor(max_workers=min(6, os.cpu_count() or 4)) as ex:
+        results = list(ex.map(do, list(enumerate(jobs))))
+    bad = 0
+    for i, j, cls, script, (ia, rca, erra), (ib, rcb, errb), (im, rcm, errm) in results:
+        ia, ib, im = ia or [], ib or [], im or []
+        ck.traces_validated += 1
+        res = ia[-1] if ia else "<no output rc=%s>" % rca
+        secs = rrt_fields(res) if res.startswith("status=") else []
+        evals = max([int(s.get("evals", 0)) for s in secs if s] or [0])
+        ck.case(("rrt-lockstep", script[1]), evals >= 50)
+        ck.count("rrt-lockstep:cases")
+        for c in cls:
+            ck.count("rrt-lockstep:" + c)
+        for s in secs:
+            if s:
+                ck.count("rrt-lockstep:status-%s" % s.get("status"))
+        if rcm != 0 or not im:
+            raise RuntimeError("model driver failed on %r (rc=%s): %s" % (script, rcm, (errm or "")[-500:]))
+        if bad >= 3:
+            continue
+        why = None
+        if rca != 0:
+            why = "harness exited with code %s: %s" % (rca, (erra or "").strip()[-300:])
+        elif "malformed-line" in cls and res != "bad-op":
+            why = "an ill-formed line was not answered with bad-op: %r" % res[:200]
+        elif res.startswith("exception") or res == "bad-op":
+            why = None      # no oracle of its own: the model must print the same line (correspondence below)
+        elif ia != ib:
+            why = ("two processes with the same seed disagree (fresh-state filler / heap fill / layout differ): %r vs %r"
+                   % (res[:300], (ib[-1] if ib else "<no output>")[:300]))
+        else:
+            why = rrt_oracle(j, secs)
+        if why is not None:
+            bad += 1
+            ck.report({"engine": "rng", "kind": "rrt-oracle", "what": why}, script=script, expected=im, observed=ia, engine="rng")
+            ck.log("property failure (RRT run): %s" % why)
+            continue
+        if ia != im:
+            # model and code disagree: find the first diverging query, then look for a property failure aimed by it
+            bad += 1
+            ck.disagreements += 1
+            tscript = [script[0], script[1].replace(" trace=0", " trace=1")]
+            ta = ck.run_bin(plain, tscript, timeout=300, env=variant_env(0))[0] or []
+            tm = ck.run_bin(ck.driver(RRT_DRIVER), tscript, timeout=300)[0] or []
+            dq = first_trace_diff(ta, tm)
+            differing = []
+            for sa, sm in zip(rrt_fields(res), rrt_fields(im[-1])):
+                differing += [k for k in sa if sa.get(k) != sm.get(k)]
+            # targeted search: the same problem in a third process whose heap layout AND environment (home, user,
+            # locale, time zone) differ — a hidden input of that kind makes the real runs disagree among themselves
+            tc = ck.run_bin(plain, script, timeout=300, env=dict(variant_env(2), **RRT_OTHER_ENV))[0] or []
+            found = tc != ia
+            ck.report({"engine": "rng", "kind": "rrt-correspondence"}, script=script, expected=im, observed=ia,
+                      found_input=found, engine="rng",
+                      obligation="correspondence rrt: geometric::RRT / RNG / RealVectorStateSpace / DiscreteMotionValidator / "
+                                 "IterationTerminationCondition vs OmplModel.Model.RngPlan; differing fields %s; first diverging "
+                                 "line of the query transcript: %s" % (sorted(set(differing)),
+                                                                      None if dq is None else {"index": dq[0], "impl": dq[1][:200], "model": dq[2][:200]}))
+            ck.log("RRT lock-step: model and implementation disagree (%s), first diverging query %s: %s"
+                   % (sorted(set(differing)), None if dq is None else dq[0], script[1][:300]))
+    ck.log("RRT lock-step: %d problems (each: two processes + the model), %d failing" % (len(jobs), bad))
+    return bad
+
+
 # ---------------------------------------------------------------------------------- the check
 def corpus():
     d = os.path.join(core.VERIF, "corpus", "C20")
@@ -821,6 +1116,8 @@ def noseed_run(ck, hbin, K):
 def setup(ck):
     ck.build_harness("rng", ["rng.cpp"], link_ompl=True)
     ck.build_harness("rng_plain", ["rng.cpp"], link_ompl=True, sanitize="", opt="-O1")
+    ck.build_harness("rng_rrt", ["rng_rrt.cpp"], link_ompl=True)
+    ck.build_harness("rng_rrt_plain", ["rng_rrt.cpp"], link_ompl=True, sanitize="", opt="-O1")
 
 
 def run(ck):
@@ -828,10 +1125,14 @@ def run(ck):
                "(a) rng scripts (one process each): seeding / reseed-history / stream / adversarial, distinct by text; "
                "non-trivial if >= 10 generators are created or a reseed follows Gaussian draws; (b) planner cases = "
                "(planner, environment, seed, evaluation budget), each run in two separate processes; non-trivial if "
-               "the run made >= 100 evaluations")
+               "the run made >= 100 evaluations; (r) RRT lock-step cases = one explicit problem line (space, boxes, starts, "
+               "goals, parameters, seed, budget, history, condition), run in two processes and by the model; non-trivial if "
+               "the run made >= 50 evaluations")
     ck.trusted += ["harness/rng.cpp (box-obstacle validity checker, counting termination condition, FNV hashes of "
                    "status/path/planner data/query transcript)",
                    "model abstraction: rejection loops bounded by a fuel of 4096 rounds; ProlateHyperspheroid::transform (Eigen) not modelled",
+                   "harness/rng_rrt.cpp (explicit RealVector problems, box checker, counting condition, hashes of transcript / "
+                   "path / tree); RRT model: planning loop bounded by budget + 2 iterations (prints model-diverged when exhausted)",
                    "glibc MALLOC_PERTURB_ and ASLR as the means to vary what an undisciplined planner could observe"]
     ck.assumptions += ["this toolchain: g++ 12 / libstdc++ / glibc x86-64 (std::uint_fast32_t is 64 bit); the bit patterns "
                        "are not claimed for other standard libraries",
@@ -840,7 +1141,7 @@ def run(ck):
                        "excluded as non-deterministic by design: " + "; ".join("%s (%s)" % kv for kv in sorted(EXCLUDED.items())),
                        "not constructed generically: " + "; ".join("%s (%s)" % kv for kv in sorted(NOT_CONSTRUCTED.items()))]
     ck.lean_build(LEAN_TARGETS)
-    ck.audit(roots=["Drv.Rng"])
+    ck.audit(roots=["Drv.Rng", "Drv.RngPlan"])
     if ck.tier == "thorough" and ck.lean_ok:
         ck.leanchecker(["OmplModel.Props.C20"])
     hbin = ck.build_harness("rng", ["rng.cpp"], link_ompl=True)
@@ -943,6 +1244,15 @@ def run(ck):
                 bad += 1
     ck.log("rng protocol: %d scripts, %d disagreement(s), %d failing" % (ck.traces_validated, ck.disagreements, bad))
 
+    # ---- geometric::RRT in lock-step with the model (the planner as an oracle computation over the RNG model) ----
+    if ck.lean_ok:
+        rrt_bin = ck.build_harness("rng_rrt", ["rng_rrt.cpp"], link_ompl=True)
+        rrt_plain = ck.build_harness("rng_rrt_plain", ["rng_rrt.cpp"], link_ompl=True, sanitize="", opt="-O1")
+        if bad == 0:
+            rrt_lockstep(ck, rrt_bin, rrt_plain, quick)
+        else:
+            ck.notes.append("RRT lock-step skipped: the rng protocol already failed in this run")
+
     # ---- sampler level: outputs are a function of draws and inputs, never of the output state's old content ----
     if bad == 0:
         sampler_check(ck, plain, quick)
@@ -1015,6 +1325,41 @@ def replay(ck, data):
             return 1
         print("no divergence on the current tree")
         return 0
+    if script and script[0].startswith("rrtl"):
+        plain = ck.build_harness("rng_rrt_plain", ["rng_rrt.cpp"], link_ompl=True, sanitize="", opt="-O1")
+        ck.lean_build([RRT_DRIVER])
+        ts = [script[0], script[1].replace(" trace=0", " trace=1")]
+        a = ck.run_bin(plain, ts, env=variant_env(0))[0] or ["<none>"]
+        b = ck.run_bin(plain, ts, env=variant_env(1))[0] or ["<none>"]
+        m = ck.run_bin(ck.driver(RRT_DRIVER), ts)[0] or ["<none>"]
+        print(script[1])
+        print("process A: %s" % a[-1])
+        print("process B: %s" % b[-1])
+        print("model    : %s" % m[-1])
+        rc = 0
+        if a != b:
+            d = first_trace_diff(a, b)
+            print("first diverging line #%d:\n  A: %s\n  B: %s" % d)
+            print("PROPERTY FAILS: two processes with the same seed disagree")
+            rc = 1
+        c = ck.run_bin(plain, ts, env=dict(variant_env(2), **RRT_OTHER_ENV))[0] or ["<none>"]
+        if c != a:
+            print("process C (other HOME/USER/LANG/TZ/TERM, other heap layout): %s" % c[-1])
+            print("PROPERTY FAILS: a process that differs only in its environment disagrees — the run has an input "
+                  "besides (seed, problem, budget)")
+            rc = 1
+        why = rrt_oracle(None, rrt_fields(a[-1])) if a[-1].startswith("status=") else None
+        if why:
+            print("PROPERTY FAILS: " + why)
+            rc = 1
+        if a != m:
+            d = first_trace_diff(a, m)
+            print("first line on which the real planner and the model differ, #%d:\n  impl : %s\n  model: %s" % d)
+            print("model and implementation disagree (the model is a function of seed, problem and budget only)")
+            rc = 1
+        if rc == 0:
+            print("no failure on the current tree")
+        return rc
     if script and script[0] == "gnat":
         plain = ck.build_harness("rng_plain", ["rng.cpp"], link_ompl=True, sanitize="", opt="-O1")
         a = (ck.run_bin(plain, script, env=variant_env(0))[0] or ["<none>"])[-1]
@@ -1090,7 +1435,14 @@ MANIFEST = {
             "and its converse witness (an output component nobody wrote depends on garbage). Tied to the code by bit-for-bit "
             "differential runs of the real RNG against the compiled model (PHS outputs are confirmed to be transform() of the "
             "model's point). Sampler level: every shipped sampler's output is independent of the output state's old content. "
-            "Planner determinism is observed: every single-threaded planner that can be constructed generically (geometric, "
+            "One planner is inside the model: geometric::RRT (with NearestNeighborsLinear) on RealVector problems is written as an "
+            "oracle computation over the RNG model (generator allocation order, goal-bias draw, RealVectorStateSampler, nearest, "
+            "interpolate, DiscreteMotionValidator bisection, intermediate states, GoalState/GoalStates, solve/clear histories, "
+            "IterationTerminationCondition) and runs in lock-step with the real planner on random explicit problems — status, "
+            "path, tree, transcript hash, counters and the generators' local seeds must agree bit for bit; theorems: any such "
+            "computation is reproducible from the global seed whatever the clock read, the i-th generator it creates gets "
+            "ithSeed(s,i) under every interleaving, IterationTerminationCondition depends on the number of polls only. "
+            "For all other planners determinism is observed: every single-threaded planner that can be constructed generically (geometric, "
             "control incl. Syclop, multilevel, XXL, PRM through growRoadmap/expandRoadmap, SPARS/SPARStwo through constructRoadmap, "
             "Thunder's SPARSdb::addPathToRoadmap) is run in "
             "two separate processes (ASLR, shifted stack, different heap fill and layout, different fresh-state filler) under an "
